@@ -11,3 +11,94 @@
 (assert (forall ((s Str)) (! (= (trFold s 0) str_empty) :pattern ((trFold s 0)))))
 (assert (forall ((s Str) (n Int)) (! (=> (>= n 0) (= (trFold s (+ n 1)) (ext.builder.add (trFold s n) (trCp (cp s n))))) :pattern ((trFold s (+ n 1))))))
 (assert (forall ((s Str)) (! (= (trStr s) (trFold s (cplen s))) :pattern ((trStr s)))))
+; ---- C09: the source text as a sequence of code points; lexical classes (Appendix F of DESIGN.md, from the statement of C09)
+(define-fun src ((e (Array Int (Array Int Int))) (s Slice) (k Int)) Int (select (select e (s.ref s)) (+ (s.off s) k)))
+;@heap src E_Int
+(define-fun isAlphaSpec ((c Int)) Bool (or (ext.isletter c) (ext.ismark c) (= c 95)))
+(define-fun isAlnumSpec ((c Int)) Bool (or (isAlphaSpec c) (isDigitSpec c)))
+; trusted facts about the Unicode tables: NUL, ASCII digits, blanks and punctuation are neither letters nor marks
+(assert (forall ((c Int)) (! (=> (and (<= 0 c) (< c 128) (not (and (<= 65 c) (<= c 90))) (not (and (<= 97 c) (<= c 122)))) (and (not (ext.isletter c)) (not (ext.ismark c)))) :pattern ((ext.isletter c)))))
+(assert (forall ((c Int)) (! (=> (and (<= 0 c) (< c 128)) (not (ext.ismark c))) :pattern ((ext.ismark c)))))
+; the text of a piece of the source
+(define-fun text ((e (Array Int (Array Int Int))) (s Slice) (a Int) (b Int)) Str (str.of (select e (s.ref s)) (+ (s.off s) a) (- b a)))
+;@heap text E_Int
+; nl(k): number of line feeds among the first k code points
+(declare-fun nl ((Array Int (Array Int Int)) Slice Int) Int)
+(define-fun nl$def ((e (Array Int (Array Int Int))) (s Slice) (k Int)) Int (ite (<= k 0) 0 (+ (nl e s (- k 1)) (ite (= (src e s (- k 1)) 10) 1 0))))
+;@heap nl E_Int
+;@unfold nl
+; end of the maximal run of identifier characters / digits starting at k
+(declare-fun identEnd ((Array Int (Array Int Int)) Slice Int) Int)
+(define-fun identEnd$def ((e (Array Int (Array Int Int))) (s Slice) (k Int)) Int (ite (and (<= 0 k) (< k (s.len s)) (isAlnumSpec (src e s k))) (identEnd e s (+ k 1)) k))
+;@heap identEnd E_Int
+;@unfold identEnd
+(declare-fun digitsEnd ((Array Int (Array Int Int)) Slice Int) Int)
+(define-fun digitsEnd$def ((e (Array Int (Array Int Int))) (s Slice) (k Int)) Int (ite (and (<= 0 k) (< k (s.len s)) (isDigitSpec (src e s k))) (digitsEnd e s (+ k 1)) k))
+;@heap digitsEnd E_Int
+;@unfold digitsEnd
+; first position >= k holding code point c, or the end of the text
+(declare-fun findCp ((Array Int (Array Int Int)) Slice Int Int) Int)
+(define-fun findCp$def ((e (Array Int (Array Int Int))) (s Slice) (k Int) (c Int)) Int (ite (and (<= 0 k) (< k (s.len s)) (not (= (src e s k) c))) (findCp e s (+ k 1) c) k))
+;@heap findCp E_Int
+;@unfold findCp
+; first position >= k where "*/" starts, or the end of the text
+(declare-fun findStarSlash ((Array Int (Array Int Int)) Slice Int) Int)
+(define-fun findStarSlash$def ((e (Array Int (Array Int Int))) (s Slice) (k Int)) Int (ite (and (<= 0 k) (< k (s.len s)) (not (and (= (src e s k) 42) (< (+ k 1) (s.len s)) (= (src e s (+ k 1)) 47)))) (findStarSlash e s (+ k 1)) k))
+;@heap findStarSlash E_Int
+;@unfold findStarSlash
+; end of a numeric literal starting at a: digits, then optionally a point followed by at least one digit and more digits
+(define-fun numberEnd ((e (Array Int (Array Int Int))) (s Slice) (a Int)) Int
+  (ite (and (< (digitsEnd e s a) (s.len s)) (= (src e s (digitsEnd e s a)) 46) (< (+ (digitsEnd e s a) 1) (s.len s)) (isDigitSpec (src e s (+ (digitsEnd e s a) 1))))
+       (digitsEnd e s (+ (digitsEnd e s a) 1)) (digitsEnd e s a)))
+;@heap numberEnd E_Int
+; ---- C09: maximal munch.  For a piece starting at position a (a < n): its end, whether it is a token, and the token type.
+(define-fun src1 ((e (Array Int (Array Int Int))) (s Slice) (a Int)) Int (ite (< (+ a 1) (s.len s)) (src e s (+ a 1)) 0))
+;@heap src1 E_Int
+(define-fun isSingleOp ((c Int)) Bool (or (= c 40) (= c 41) (= c 123) (= c 125) (= c 91) (= c 93) (= c 44) (= c 46) (= c 45) (= c 58) (= c 43) (= c 59) (= c 94) (= c 126) (= c 37)))
+(define-fun isBlankCp ((c Int)) Bool (or (= c 32) (= c 13) (= c 9) (= c 10)))
+(define-fun mmEnd ((e (Array Int (Array Int Int))) (s Slice) (a Int)) Int
+  (let ((c (src e s a)) (d (src1 e s a)) (n (s.len s)))
+  (ite (isSingleOp c) (+ a 1)
+  (ite (= c 124) (ite (= d 124) (+ a 2) (+ a 1))
+  (ite (= c 38) (ite (= d 38) (+ a 2) (+ a 1))
+  (ite (= c 42) (ite (= d 42) (+ a 2) (+ a 1))
+  (ite (= c 33) (ite (= d 61) (+ a 2) (+ a 1))
+  (ite (= c 61) (ite (= d 61) (+ a 2) (+ a 1))
+  (ite (= c 60) (ite (or (= d 61) (= d 60)) (+ a 2) (+ a 1))
+  (ite (= c 62) (ite (or (= d 61) (= d 62)) (+ a 2) (+ a 1))
+  (ite (= c 47) (ite (= d 47) (findCp e s (+ a 2) 10) (ite (= d 42) (ite (< (findStarSlash e s (+ a 2)) n) (+ (findStarSlash e s (+ a 2)) 2) n) (+ a 1)))
+  (ite (isBlankCp c) (+ a 1)
+  (ite (= c 34) (ite (< (findCp e s (+ a 1) 34) n) (+ (findCp e s (+ a 1) 34) 1) n)
+  (ite (isDigitSpec c) (numberEnd e s a)
+  (ite (isAlphaSpec c) (identEnd e s (+ a 1))
+  (+ a 1))))))))))))))))
+;@heap mmEnd E_Int
+; classification of the piece: 0 = skipped silently (blank, comment), 1 = token, 2 = diagnostic (no token)
+(define-fun pieceKind ((e (Array Int (Array Int Int))) (s Slice) (a Int)) Int
+  (let ((c (src e s a)) (d (src1 e s a)) (n (s.len s)))
+  (ite (or (isSingleOp c) (= c 124) (= c 38) (= c 42) (= c 33) (= c 61) (= c 60) (= c 62)) 1
+  (ite (= c 47) (ite (= d 47) 0 (ite (= d 42) (ite (< (findStarSlash e s (+ a 2)) n) 0 2) 1))
+  (ite (isBlankCp c) 0
+  (ite (= c 34) (ite (< (findCp e s (+ a 1) 34) n) 1 2)
+  (ite (isDigitSpec c) (ite (ext.parsefloat.ok (trStr (text e s a (numberEnd e s a)))) 1 2)
+  (ite (isAlphaSpec c) 1
+  2))))))))
+;@heap pieceKind E_Int
+(define-fun pieceType ((e (Array Int (Array Int Int))) (s Slice) (a Int)) Int
+  (let ((c (src e s a)) (d (src1 e s a)))
+  (ite (= c 40) K_token_LEFT_PAREN (ite (= c 41) K_token_RIGHT_PAREN (ite (= c 123) K_token_LEFT_BRACE (ite (= c 125) K_token_RIGHT_BRACE
+  (ite (= c 91) K_token_LEFT_BRACKET (ite (= c 93) K_token_RIGHT_BRACKET (ite (= c 44) K_token_COMMA (ite (= c 46) K_token_DOT
+  (ite (= c 45) K_token_MINUS (ite (= c 58) K_token_COLON (ite (= c 43) K_token_PLUS (ite (= c 59) K_token_SEMICOLON
+  (ite (= c 94) K_token_XOR (ite (= c 126) K_token_NOT (ite (= c 37) K_token_MODULO
+  (ite (= c 124) (ite (= d 124) K_token_LOGICAL_OR K_token_OR)
+  (ite (= c 38) (ite (= d 38) K_token_LOGICAL_AND K_token_AND)
+  (ite (= c 42) (ite (= d 42) K_token_POWER K_token_STAR)
+  (ite (= c 33) (ite (= d 61) K_token_BANG_EQUAL K_token_BANG)
+  (ite (= c 61) (ite (= d 61) K_token_EQUAL_EQUAL K_token_EQUAL)
+  (ite (= c 60) (ite (= d 61) K_token_LESS_EQUAL (ite (= d 60) K_token_LEFT_SHIFT K_token_LESS))
+  (ite (= c 62) (ite (= d 61) K_token_GREATER_EQUAL (ite (= d 62) K_token_RIGHT_SHIFT K_token_GREATER))
+  (ite (= c 47) K_token_SLASH
+  (ite (= c 34) K_token_STRING
+  (ite (isDigitSpec c) K_token_NUMBER
+  K_token_IDENTIFIER)))))))))))))))))))))))))))
+;@heap pieceType E_Int
